@@ -260,6 +260,12 @@ def call(self, e, st):
                 if isinstance(want, Seq) and isinstance(want.elt, Dict) and len(g.generators) == 1 and not g.generators[0].ifs:
                     yield self.bulk_dicts(g, st, want), st
                     return
+            want = getattr(self, "expect_type", None)
+            if isinstance(want, Opt):
+                want = want.elt
+            if isinstance(want, Seq) and isinstance(want.elt, Set) and len(g.generators) == 1 and not g.generators[0].ifs:
+                yield self.bulk_sets(g, st, want), st
+                return
         if nm == "cast" and len(e.args) == 2:
             yield from self.ev(e.args[1], st)
             return
@@ -297,6 +303,13 @@ def eval_args(self, e, st):
             return
         k = e.keywords[i]
         if k.arg is None:
+            vals = list(self.ev(k.value, s)) if isinstance(k.value, ast.Name) else []
+            if len(vals) == 1 and isinstance(vals[0][0], Val) and isinstance(vals[0][0].t, Dict):
+                # f(**d) with a tracked dictionary d: handed on whole (bound to the callee's own **kwargs parameter)
+                kw2 = dict(kw)
+                kw2["$starstar"] = vals[0][0]
+                yield from rec_kw(i + 1, acc, kw2, vals[0][1])
+                return
             if self.lenient:
                 self.assume_log("lenient: **kwargs forwarded unchanged (keyword arguments not tracked take their defaults)")
                 yield from rec_kw(i + 1, acc, kw, s)
@@ -447,6 +460,8 @@ def call_builtin(self, name, args, kwargs, st, node):
         return
     if name == "len":
         x = a[0]
+        if isinstance(x, Val) and isinstance(x.t, Opt) and isinstance(x.t.elt, (Seq, List, Dict, Set)):
+            x = self.coerce(x, x.t.elt, st)          # len(None) would be a TypeError: non-None is an obligation
         if isinstance(x, PyTuple):
             yield int_val(len(x.items)), st
         elif isinstance(x, View):
@@ -885,6 +900,68 @@ def bulk_dicts(self, g, st, want):
     return Val(Seq(et), rs)
 
 
+def set_pred(self, node, s, kt, k):
+    """Membership predicate (at the symbolic key k) of a set-valued expression built from frozenset()/set() of an
+    iterable, dict key views, and the operators - | &."""
+    if isinstance(node, ast.BinOp) and isinstance(node.op, (ast.Sub, ast.BitOr, ast.BitAnd)):
+        a, b = self.set_pred(node.left, s, kt, k), self.set_pred(node.right, s, kt, k)
+        return z3.And(a, z3.Not(b)) if isinstance(node.op, ast.Sub) else (z3.Or(a, b) if isinstance(node.op, ast.BitOr)
+                                                                        else z3.And(a, b))
+    if isinstance(node, ast.Call) and isinstance(node.func, ast.Name) and node.func.id in ("frozenset", "set") \
+            and len(node.args) <= 1 and not node.keywords:
+        if not node.args:
+            return z3.BoolVal(False)
+        src = node.args[0]
+        if isinstance(src, ast.Call) and isinstance(src.func, ast.Attribute) and src.func.attr == "keys" and not src.args:
+            src = src.func.value
+        v, _ = self.ev1(src, s)
+        v = self.guess_tuple(v, s) if isinstance(v, PyTuple) else v
+        if (isinstance(v, Val) and isinstance(v.t, (Dict, Set, Seq, List))) or isinstance(v, View):
+            return self.contains(s, v, Val(kt, k))
+        raise Untranslatable("set built from an untracked iterable")
+    v, _ = self.ev1(node, s)
+    if isinstance(v, Val) and isinstance(v.t, Set):
+        return self.contains(s, v, Val(kt, k))
+    raise Untranslatable("set expression outside the supported forms")
+
+
+def bulk_sets(self, g, st, want):
+    """tuple(<set expression> for x in src): len(src) freshly allocated sets (bulk allocation); element i contains
+    exactly the keys satisfying the expression's membership predicate for the i-th source item."""
+    stt = want.elt
+    view, bind, ifs, s1 = self.comp_view(g, st)
+    st.pc[:] = s1.pc
+    n = view.length
+    st.assume(n >= 0)
+    base = st.next_ref
+    st.next_ref = st.next_ref + n
+    i = fresh("bi", z3.IntSort())
+    k = fresh("k", stt.k.sort())
+    s_i = bind(i, st)
+    self.muted += 1
+    try:
+        pred = self.set_pred(g.elt, s_i, stt.k, k)
+    finally:
+        self.muted -= 1
+    r = fresh("r", z3.IntSort())
+    dom0 = self.heap.get(st, ("dom", stt.name(), stt.k))
+    card0 = self.heap.get(st, ("card", stt.name()))
+    dom1, card1 = fresh("bdom", dom0.sort()), fresh("bcard", card0.sort())
+    outside = z3.Or(r < base, r >= base + n)
+    st.assume(z3.ForAll([r], z3.Implies(outside, z3.And(z3.Select(dom1, r) == z3.Select(dom0, r),
+                                                        z3.Select(card1, r) == z3.Select(card0, r)))))
+    body = z3.Select(z3.Select(dom1, r), k) == pred
+    st.assume(z3.ForAll([r, k], z3.Implies(z3.And(base <= r, r < base + n), z3.substitute(body, (i, r - base)))))
+    st.assume(z3.ForAll([r], z3.Implies(z3.And(base <= r, r < base + n), z3.Select(card1, r) >= 0)))
+    self.heap.set(st, ("dom", stt.name(), stt.k), dom1)
+    self.heap.set(st, ("card", stt.name()), card1)
+    rs = fresh("seq", z3.SeqSort(z3.IntSort()))
+    j = fresh("j", z3.IntSort())
+    st.assume(z3.Length(rs) == n)
+    st.assume(z3.ForAll([j], z3.Implies(z3.And(0 <= j, j < n), rs[j] == base + j)))
+    return Val(Seq(stt), rs)
+
+
 def chain_views(self, vs):
     if len(vs) == 1:
         return vs[0]
@@ -1179,6 +1256,8 @@ def call_method(self, recv, name, args, kwargs, st, node):
                 d = a[1] if len(a) > 1 else kwargs.get("default", none_val())
                 if isinstance(d, PyTuple) and isinstance(t.v, (Seq, Tup)):
                     d = self.coerce(d, t.v, st)
+                if isinstance(t.v, Opaque) and t.v.nm == "Any":
+                    d = self.coerce(d, t.v, st)        # untracked JSON-like values: the default is just another value
                 m = self.merge_vals(present, v, self.guess_tuple(d, st), st)
                 if m is None:
                     raise Untranslatable("dict.get default of another type")
@@ -1335,6 +1414,14 @@ def bind_params(self, c, fnode, args, kwargs, st):
             env[k.arg] = kwargs[k.arg]
         elif d is not None:
             env[k.arg] = self.ev1(d, State({}, st.heap, st.pc, st.next_ref))[0]
+    if a.kwarg is not None and a.kwarg.arg in c.params:
+        extra = [k for k in kwargs if k != "$starstar" and k not in names and k not in [x.arg for x in a.kwonlyargs]]
+        if "$starstar" in kwargs and not extra:
+            env[a.kwarg.arg] = kwargs["$starstar"]          # the same mapping (read-only use: no copy is modelled)
+        elif not extra and "$starstar" not in kwargs:
+            env[a.kwarg.arg] = self.alloc(st, c.params[a.kwarg.arg])
+        else:
+            raise Untranslatable(f"keyword arguments collected into **{a.kwarg.arg}")
     # coerce to declared parameter types
     for n, t in c.params.items():
         if n in env and isinstance(t, ty.T):
@@ -1403,8 +1490,9 @@ def call_contract(self, c, args, kwargs, st, node):
     if extra_reqs:
         menv = dict(self.entry.env)
         menv.update(st.env)
-        if "self" in menv:
-            menv["caller_self"] = menv["self"]      # the callee's `self` shadows the caller's
+        for k in env:
+            if k in menv:
+                menv["caller_" + k] = menv[k]       # a callee parameter shadows the caller's name: caller_<name>
         menv.update(env)
         ms = State(menv, st.heap, st.pc, st.next_ref, st.ghost, st.labels)
         for k, r in enumerate(extra_reqs):
